@@ -637,86 +637,90 @@ explore_stream(void)
 #define SW	(16384L * 1024L)
 #define SC	4096
 
-/* the stock-size image of a tiny stream: tiny line i becomes the stock lines
- * [i*SN/TN, (i+1)*SN/TN), each with the content of line i; a run of x that makes a
- * tiny line longer than half the tiny window is scaled by SW/TW (so a line longer
- * than the tiny window becomes a line longer than the stock window); the
- * unterminated rest stays one unterminated line.  Returns a shell pipeline that
- * produces it (for the record) and writes the bytes to F. */
+/* the stock-size image of a tiny stream.  Both constant sets satisfy window =
+ * lines x LLEN, so the shape is scaled uniformly: tiny line i becomes the stock
+ * lines [i*SN/TN, (i+1)*SN/TN), each with the content of line i in which every
+ * run of x is stretched by 1024/LLEN (an empty line stays empty, a \r stays one
+ * \r); the unterminated rest stays one unterminated line, stretched likewise.
+ * N tiny lines thus become 16384 stock lines and W tiny bytes of x become
+ * 16 MiB.  If EXACT, the rest is padded with x so that the whole image has
+ * exactly the size of the stock window (the shape "the data end exactly at the
+ * end of the window").  Writes the image to F, a perl one-liner that prints it
+ * to PL; returns the size. */
 static long
-transfer_stream(FILE *f, char *sh, size_t shsz)
+transfer_stream(FILE *f, char *pl, size_t plsz, int exact)
 {
 	long total = 0;
 	size_t k = 0;
 	int nterm = S.nexp - (S.len && !S.ends_nl ? 1 : 0);
+	const long xs = 1024 / VERIF_PRCHUNK_LLEN;
+	char *lb = malloc((size_t)(MAXLEN * xs + 2));
+	long nlines = 0;
 
-	sh[0] = '\0';
-	k += (size_t)snprintf(sh + k, shsz - k, "(");
+	k += (size_t)snprintf(pl + k, plsz - k, "perl -e 'print(");
 	for (int i = 0; i < S.nexp; i++) {
 		const char *e = S.in + S.exp_off[i];
 		int elen = S.exp_len[i];
 		long reps = i < nterm ? ((long)(i + 1) * SN / TN - (long)i * SN / TN) : 1;
-		int big = elen > TW / 2;
-		char pe[8 * MAXLEN + 8];
-		size_t pk = 0;
+		size_t n = 0;
+		int run = 0;
 
-		for (long r = 0; r < reps; r++) {
-			for (int j = 0; j < elen; j++) {
-				long mul = (big && e[j] == 'x') ? SW / TW : 1;
-				for (long m = 0; m < mul; m++) {
-					fputc(e[j], f);
-				}
-				total += mul;
+		k += (size_t)snprintf(pl + k, plsz - k, "%s(", i ? ", " : "");
+		for (int j = 0; j <= elen; j++) {
+			if (j < elen && e[j] == 'x') {
+				run++;
+				continue;
 			}
-			if (i < nterm) {
-				fputc('\n', f);
-				total++;
+			if (run) {
+				memset(lb + n, 'x', (size_t)(run * xs));
+				n += (size_t)(run * xs);
+				k += (size_t)snprintf(pl + k, plsz - k, "\"x\"x%ld . ", run * xs);
+				run = 0;
 			}
-		}
-		/* the shell form */
-		if (big) {
-			int nx = 0;
-			for (int j = 0; j < elen; j++) {
-				nx += e[j] == 'x';
-			}
-			k += (size_t)snprintf(sh + k, shsz - k, "%shead -c %ld /dev/zero | tr '\\0' x%s", i ? "; " : "",
-					      (long)nx * (SW / TW), i < nterm ? "; echo" : "");
-			continue;
-		}
-		for (int j = 0; j < elen; j++) {
-			if (e[j] == '\r') {
-				pe[pk++] = '\\';
-				pe[pk++] = 'r';
-			} else {
-				pe[pk++] = e[j];
+			if (j < elen) {
+				lb[n++] = e[j];
+				k += (size_t)snprintf(pl + k, plsz - k, "\"\\%c\" . ", e[j] == '\n' ? 'n' : 'r');
 			}
 		}
-		pe[pk] = '\0';
 		if (i < nterm) {
-			k += (size_t)snprintf(sh + k, shsz - k, "%syes '%s' | head -n %ld%s", i ? "; " : "",
-					      pe, reps, strchr(pe, '\\') ? " | sed 's/\\\\r/\\r/'" : "");
+			lb[n++] = '\n';
+			k += (size_t)snprintf(pl + k, plsz - k, "\"\\n\")x%ld", reps);
+			nlines += reps;
 		} else {
-			k += (size_t)snprintf(sh + k, shsz - k, "%sprintf '%s'", i ? "; " : "", pe);
+			if (exact && total + (long)n < SW && nlines < SN) {
+				long pad = SW - total - (long)n;
+				char *big = malloc((size_t)pad);
+				memset(big, 'x', (size_t)pad);
+				fwrite(big, 1, (size_t)pad, f);
+				free(big);
+				total += pad;
+				k += (size_t)snprintf(pl + k, plsz - k, "\"x\"x%ld . ", pad);
+			}
+			k += (size_t)snprintf(pl + k, plsz - k, "\"\")");
 		}
+		for (long r = 0; r < reps; r++) {
+			fwrite(lb, 1, n, f);
+		}
+		total += (long)n * reps;
 	}
-	snprintf(sh + k, shsz - k, ")");
-	if (S.nexp == 0) {
-		snprintf(sh, shsz, "(true)");
-	}
+	snprintf(pl + k, plsz - k, ")'");
+	free(lb);
 	return total;
 }
 
 /* run the stock dconv -S of the same build on the stock-size image; compare with
  * the image (a \r before \n may be dropped).  Returns 0 agree, 1 differs, -1 no run. */
 static int
-transfer_case(char *verdict, size_t vsz, char *cmd, size_t csz)
+transfer_case(const char *key, char *verdict, size_t vsz, char *cmd, size_t csz)
 {
 	const char *rundir = getenv("VERIF_RUNDIR");
-	char fin[512], fout[512], sh[1024], run[2048];
+	char fin[512], fout[512], sh[1536], run[2048];
 	FILE *f;
 	long total;
 	int st;
 	struct stat sb;
+	int memkind = strstr(key, " oob-") != NULL;
+	int exact = strstr(key, "newline-store behind the window") != NULL;
 
 	if (rundir == NULL) {
 		rundir = "/tmp";
@@ -731,16 +735,16 @@ transfer_case(char *verdict, size_t vsz, char *cmd, size_t csz)
 		snprintf(verdict, vsz, "not transferred (cannot write %s)", fin);
 		return -1;
 	}
-	total = transfer_stream(f, sh, sizeof(sh));
+	total = transfer_stream(f, sh, sizeof(sh), exact);
 	fclose(f);
-	snprintf(cmd, csz, "%s | dconv -S | cmp - <%s", sh, sh);
+	snprintf(cmd, csz, "%s | dconv -S | cmp - <(%s)", sh, sh);
 	snprintf(run, sizeof(run), "'%s/src/dconv' -S < '%s' > '%s' 2>/dev/null", ex.tree, fin, fout);
 	++*c_transfer;
 	st = system(run);
 	/* compare: output must equal input plus a final newline if that was missing; \r\n may become \n */
 	{
 		FILE *a = fopen(fin, "r"), *b = fopen(fout, "r");
-		long la = 0, lb = 0, nlines_in = 0, nlines_out = 0;
+		long la = 0, nlines_in = 0;
 		int differ = 0;
 		int ca, cb;
 		long firstdiff = -1;
@@ -757,15 +761,23 @@ transfer_case(char *verdict, size_t vsz, char *cmd, size_t csz)
 				/* CRLF handling: the \r may be dropped */
 				int nx = fgetc(a);
 				if (nx == '\n' || nx == EOF) {
-					ca = nx == EOF ? '\n' : nx;
+					ca = '\n';
 					la++;
+					if (nx == EOF) {
+						ungetc('\n', b);
+						cb = '\n';
+						ca = EOF;
+					}
 				} else {
 					ungetc(nx, a);
 				}
 			}
-			if (ca == EOF && cb == '\n' && !S.ends_nl && fgetc(b) == EOF) {
+			if (ca == EOF && cb == '\n' && !S.ends_nl) {
 				/* the missing final newline was supplied */
-				nlines_out++;
+				if (fgetc(b) != EOF) {
+					differ = 1;
+					firstdiff = la;
+				}
 				break;
 			}
 			if (ca != cb) {
@@ -774,9 +786,7 @@ transfer_case(char *verdict, size_t vsz, char *cmd, size_t csz)
 				break;
 			}
 			nlines_in += ca == '\n';
-			nlines_out += cb == '\n';
 			la++;
-			lb++;
 			ca = fgetc(a);
 			cb = fgetc(b);
 		}
@@ -785,16 +795,17 @@ transfer_case(char *verdict, size_t vsz, char *cmd, size_t csz)
 		unlink(fin);
 		unlink(fout);
 		if (WIFSIGNALED(st) || (WIFEXITED(st) && WEXITSTATUS(st) >= 128)) {
-			snprintf(verdict, vsz, "TRANSFERS to the stock constants: input of %ld bytes (%s), stock dconv -S ended with %s %d after %ld output bytes",
-				 total, sh, WIFSIGNALED(st) ? "signal" : "status", WIFSIGNALED(st) ? WTERMSIG(st) : WEXITSTATUS(st), (long)sb.st_size);
+			snprintf(verdict, vsz, "TRANSFERS to the stock constants: on the scaled input of %ld bytes the stock dconv -S ended with %s %d after %ld output bytes",
+				 total, WIFSIGNALED(st) ? "signal" : "status", WIFSIGNALED(st) ? WTERMSIG(st) : WEXITSTATUS(st) - 128, (long)sb.st_size);
 			return 1;
 		}
 		if (differ) {
-			snprintf(verdict, vsz, "TRANSFERS to the stock constants: input of %ld bytes (%s), stock dconv -S output has %ld bytes and departs from the input at byte %ld (line %ld)",
-				 total, sh, (long)sb.st_size, firstdiff, nlines_in + 1);
+			snprintf(verdict, vsz, "TRANSFERS to the stock constants: on the scaled input of %ld bytes the stock dconv -S (exit %d) printed %ld bytes, departing from the input at byte %ld (line %ld)",
+				 total, WIFEXITED(st) ? WEXITSTATUS(st) : -1, (long)sb.st_size, firstdiff, nlines_in + 1);
 			return 1;
 		}
-		snprintf(verdict, vsz, "does not show with the stock binary on the scaled input of %ld bytes (%s) read in full 4096-byte chunks: output = input", total, sh);
+		snprintf(verdict, vsz, "on the scaled input of %ld bytes (read in full 4096-byte chunks) the stock dconv -S prints output = input%s",
+			 total, memkind ? " (an out-of-bounds access of this kind does not show in the output: at the stock layout the byte before the window belongs to the neighbouring mapping)" : ": does NOT transfer as scaled");
 		return 0;
 	}
 }
@@ -804,7 +815,7 @@ transfer_all(void)
 {
 	for (int i = 0; i < ex.nviol; i++) {
 		struct ex_viol_s *v = ex.viol + i;
-		char s[MAXLEN + 1], verdict[1536], cmd[1536], *nd;
+		char s[MAXLEN + 1], verdict[1536], cmd[4096], *nd;
 		int len = 0;
 		const char *p = v->cas;
 
@@ -816,7 +827,7 @@ transfer_all(void)
 		}
 		set_stream(s, len);
 		cmd[0] = '\0';
-		transfer_case(verdict, sizeof(verdict), cmd, sizeof(cmd));
+		transfer_case(v->key, verdict, sizeof(verdict), cmd, sizeof(cmd));
 		nd = malloc(strlen(v->detail) + strlen(verdict) + 16);
 		sprintf(nd, "%s || %s", v->detail, verdict);
 		free(v->detail);
@@ -858,7 +869,7 @@ main(int argc, char *argv[])
 		char s[MAXLEN + 1];
 		int len = 0;
 		const char *p = ex.cas;
-		char verdict[1536], cmd[1536];
+		char verdict[1536], cmd[4096];
 		int done;
 
 		for (; *p && *p != ' ' && len < MAXLEN; p++) {
@@ -884,8 +895,8 @@ main(int argc, char *argv[])
 		replay_mode = 1;
 		done = run_once();
 		printf("  run %s; %d of %d lines delivered\n", done ? "complete" : "ended early", R.delivered, S.nexp);
-		transfer_case(verdict, sizeof(verdict), cmd, sizeof(cmd));
-		printf("  transfer: %s\n", verdict);
+		transfer_case(replay_key, verdict, sizeof(verdict), cmd, sizeof(cmd));
+		printf("  transfer: %s\n  cmd: %s\n", verdict, cmd);
 		return ex_replay_result(replay_fails != 0, "%s", replay_fails ? replay_key : "no violation");
 	}
 
